@@ -78,9 +78,29 @@ func build(rng *emit.Rand, now time.Time, n int, pos int, defect string, firstGa
 			e.h.T = t0 - 5
 		case "future":
 			e.h.T = now.Add(header.VerifClockDrift()).UnixNano() + 1
+		case "badlink":
+			// right height, right time, but another parent: only the type-level check against the
+			// PREDECESSOR (the rolling trusted header) can see it; the rest of the range is linked to it
+			e.h.Prev = (&vhdr.Header{Chain: "a", H: e.h.H - 1, T: t0, Nonce: 777 + rng.U64()%1000}).Hash()
+			relink(out, pos+1)
+		case "past_vs_prev":
+			// not before the original trusted header, but before its predecessor
+			if pos > 0 {
+				e.h.T = t0 + int64(rng.Intn(pos))
+				relink(out, pos+1)
+			}
 		}
 	}
 	return tr, out
+}
+
+// relink re-points the parent hashes of out[from:] at their (changed) predecessors
+func relink(out []elem, from int) {
+	for j := from; j < len(out); j++ {
+		if j > 0 && out[j].h != nil && out[j-1].h != nil {
+			out[j].h.Prev = out[j-1].h.Hash()
+		}
+	}
 }
 
 func TestC02(t *testing.T) {
